@@ -13,8 +13,9 @@ class PathDumper(FileDumper):
 
     def write_file_to_output(self, filename, path):
         path = os.path.join(self.out_path, path)
-        # Avoid rewriting existing files
-        if self.add_filehash_to_path and os.path.exists(path):
+        # Avoid rewriting existing data files (their name carries their hash); the descriptor is always rewritten
+        is_descriptor = os.path.normpath(path) == os.path.normpath(os.path.join(self.out_path, 'datapackage.json'))
+        if self.add_filehash_to_path and os.path.exists(path) and not is_descriptor:
             return
         path_part = os.path.dirname(path)
         PathDumper.__makedirs(path_part)
